@@ -36,13 +36,13 @@ def make_cases(run, scratch):
     cases = []   # (name, script lines)
     # regression corpus first (minimised inputs of fixed defects)
     cdir = os.path.join(C.VERIF, "corpus", "c01")
-    for n in sorted(os.listdir(cdir)) if os.path.isdir(cdir) else []:
+    for n in sorted(x for x in os.listdir(cdir) if x.endswith(".case")) if os.path.isdir(cdir) else []:
         lines = []
         for l in open(os.path.join(cdir, n)):
             l = l.rstrip("\n")
             if not l or l.startswith("#"):
                 continue
-            l = l.replace("{REPO}", C.REPO)
+            l = l.replace("{REPO}", C.REPO).replace("{VERIF}", C.VERIF)
             m = re.search(r"\{SNAP:([^}]+)\}", l)
             if m:
                 l = l.replace(m.group(0), scratch.unpack(os.path.join(C.REPO, "tests/hwloc", m.group(1))))
